@@ -178,18 +178,48 @@ def deliver (w : World) (ts : List Nat) (id : Nat) : World :=
       | none => none }
 
 inductive Err where
-  | exceedsNotifiers | exceedsListeners | exceedsNodes | doesNotExist | outOfBounds | missedDeadline
+  | exceedsNotifiers | exceedsListeners | exceedsNodes | doesNotExist | outOfBounds | missedDeadline | invalidKey
 deriving DecidableEq, Repr
+
+/-- the trigger of this listener's concept fails: its process died while the concept was idle -/
+def deadIdle (w : World) (l : Nat) : Bool :=
+  match w.liss l with
+  | some L => L.st = .dead && L.pending.isEmpty
+  | none => false
+
+/-- `Err(Disconnected) => listener_connections.remove(i)`: the connections (among those notified, `ls`) whose trigger failed are closed;
+they are reopened, if possible, when the listener registry changes the next time -/
+def prune (w : World) (N : Noti) (ls : List Nat) : Noti :=
+  { N with conns := N.conns.map fun c =>
+      match c with
+      | some l => if l ∈ ls ∧ deadIdle w l = true then none else some l
+      | none => none }
 
 /-- `Notifier::__internal_notify` -/
 def notifyCore (w : World) (n : Nat) (N : Noti) (id : Nat) : World × Except Err Nat :=
   let N' := updateConns w N
-  let w1 := setN w n N'
-  if w.cfg.idMax < id then (w1, .error .outOfBounds) else
+  if w.cfg.idMax < id then (setN w n N', .error .outOfBounds) else
   let ts := targets N'
-  let cnt := (ts.filter (reaches w1)).length
+  let cnt := (ts.filter (reaches w)).length
+  let w1 := setN w n (prune w N' ts)
   -- `handle_deadline`: after the delivery
   ({ deliver w1 ts id with hist := w.hist ++ [id] }, if w.cfg.deadline = 2 then .error .missedDeadline else .ok cnt)
+
+/-- the `ListenerKey`s `Notifier::for_each_listener` hands out: (connection index, listener) for every connection -/
+def keysOf (N : Noti) : List (Nat × Nat) :=
+  (N.conns.zipIdx.filterMap fun (c, i) => c.map fun l => (i, l))
+
+/-- `Notifier::notify_single_listener_with_custom_event_id`: the connections are refreshed, the bounds are checked, then the
+key: valid iff the connection in the key's slot is a connection to the key's very listener
+(`connection.listener_id == listener_key.listener_id`), else `InvalidListenerKey`; then only that listener is notified;
+the deadline is handled after the delivery.  On success the result is `Ok(())` (rendered `ok`). -/
+def notifyOneCore (w : World) (n : Nat) (N : Noti) (slot l id : Nat) : World × Except Err Unit :=
+  let N' := updateConns w N
+  if w.cfg.idMax < id then (setN w n N', .error .outOfBounds) else
+  if N'.conns[slot]? = some (some l) then
+    ({ deliver (setN w n (prune w N' [l])) [l] id with hist := w.hist ++ [id] },
+     if w.cfg.deadline = 2 then .error .missedDeadline else .ok ())
+  else (setN w n N', .error .invalidKey)
 
 /-! ### operations -/
 
@@ -202,6 +232,8 @@ inductive Op where
   | notify (n : Nat)
   | notifyId (n id : Nat)
   | wait (l : Nat)
+  | keys (n : Nat)
+  | notifyOne (n slot l : Nat) (id : Option Nat)
   | count (k : Nat)
   | dnode (k : Nat)
   | dsvc (k : Nat)
@@ -214,6 +246,7 @@ inductive Out where
   | ok | dup | none | noNode | noService | dead
   | okN (k : Nat)
   | ids (l : List Nat)
+  | keys (k : List (Nat × Nat))
   | cnt (n l : Nat)
   | cleaned (c : Nat)
   | err (e : Err)
@@ -331,6 +364,11 @@ def outOfNotify (r : Except Err Nat) : Out :=
   | .ok c => .okN c
   | .error e => .err e
 
+def outOfUnit (r : Except Err Unit) : Out :=
+  match r with
+  | .ok _ => .ok
+  | .error e => .err e
+
 def step (w : World) : Op → World × Out
   | .open k =>
     if (w.parts k).isSome then (w, .dup) else
@@ -389,6 +427,20 @@ def step (w : World) : Op → World × Out
       if N.st ≠ .alive then (w, .none) else
       let r := notifyCore w n N id
       (r.1, outOfNotify r.2)
+  | .keys n =>
+    match w.nots n with
+    | none => (w, .none)
+    | some N =>
+      if N.st ≠ .alive then (w, .none) else
+      -- `for_each_listener`: `update_connections`, then every connection
+      (setN w n (updateConns w N), .keys (keysOf (updateConns w N)))
+  | .notifyOne n slot l id =>
+    match w.nots n with
+    | none => (w, .none)
+    | some N =>
+      if N.st ≠ .alive then (w, .none) else
+      let r := notifyOneCore w n N slot l (id.getD N.defId)
+      (r.1, outOfUnit r.2)
   | .wait l =>
     match w.liss l with
     | none => (w, .none)
@@ -429,6 +481,9 @@ def step (w : World) : Op → World × Out
 
 /-! ### canonical rendering (the harness prints the same) -/
 
+/-- ascending, for the canonical output -/
+def sortIds (l : List Nat) : List Nat := l.foldl (fun acc x => insertId x acc) []
+
 def Err.render : Err → String
   | .exceedsNotifiers => "err:NotifierCreateError::ExceedsMaxSupportedNotifiers"
   | .exceedsListeners => "err:ListenerCreateError::ExceedsMaxSupportedListeners"
@@ -436,11 +491,13 @@ def Err.render : Err → String
   | .doesNotExist => "err:EventOpenError::DoesNotExist"
   | .outOfBounds => "err:NotifierNotifyError::EventIdOutOfBounds"
   | .missedDeadline => "err:NotifierNotifyError::MissedDeadline"
+  | .invalidKey => "err:NotifierNotifyError::InvalidListenerKey"
 
 def Out.render : Out → String
   | .ok => "ok" | .dup => "dup" | .none => "none" | .noNode => "no-node" | .noService => "no-service" | .dead => "dead"
   | .okN k => s!"ok:{k}"
   | .ids l => "[" ++ String.intercalate "," (l.map toString) ++ "]"
+  | .keys k => "[" ++ String.intercalate "," ((sortIds (k.map (·.2))).map toString) ++ "]"
   | .cnt n l => s!"n={n},l={l}"
   | .cleaned c => s!"c={c},f=0"
   | .err e => e.render
